@@ -40,7 +40,7 @@ func makeCgoOverlay(repo, verifRoot string) (string, error) {
 	if _, err := os.Stat(filepath.Join(sod, "lib", "libsodium.a")); err != nil {
 		return "", fmt.Errorf("libsodium not built (run setup): %v", err)
 	}
-	dir := filepath.Join(verifRoot, "build", "overlay")
+	dir := filepath.Join(verifRoot, "build", "overlay", sanitize(repo)) // one overlay per repository root (scratch copies run concurrently)
 	if err := os.MkdirAll(dir, 0o755); err != nil {
 		return "", err
 	}
